@@ -92,6 +92,7 @@ class Check:
                 known_lines[kid][1] += self.finding_counts[key_str(f["key"])]
                 continue
             # new violation: gate 1 (same job twice -> same verdict and hash)
+            f["replay"]["expect"] = f["key"]
             k1, h1 = self.reproduce(f["replay"])
             k2, h2 = self.reproduce(f["replay"])
             if k1 is None or k2 is None or key_str(k1) != key_str(f["key"]) or key_str(k2) != key_str(f["key"]) or h1 != h2:
